@@ -206,6 +206,60 @@ class C10(ProtoSpec):
         return True
 
 
+def big_sweep_cases(tier):
+    """constructed states (through the real API) whose expiry sweep deletes many rows at once"""
+    out = []
+    for usage in (False, True):
+        for n_np in ((1, 4, 6) if tier == "quick" else (1, 2, 3, 4, 5, 6, 8)):
+            for sides in (1, 2):
+                for n_mb in (0, 3):
+                    out.append({"usage": usage, "nameplates": n_np, "sides_each": sides, "standalone_mailboxes": n_mb})
+    return out
+
+
+def run_big_sweep(case):
+    """crash image before every statement / around every commit of the sweeps that expire the constructed state;
+    each distinct image must restart and be swept empty without internal errors"""
+    try:
+        P, E = P_E()
+        w = W.World(dict(storage="file", usage=case["usage"]))
+        mon = Mon([w])
+        mon.live = False
+        c = 0
+        for i in range(case["nameplates"]):
+            for sd in ("A", "B")[:case["sides_each"]]:
+                w.step(("cbind", c, "X", sd), snap=False)
+                w.step(("claim", c, str(i + 1)), snap=False)
+                c += 1
+        for i in range(case["standalone_mailboxes"]):
+            w.step(("cbind", c, "X", "A"), snap=False)
+            w.step(("open", c, "mb%d" % i), snap=False)
+            w.step(("add", c, "p", "00", "id%d" % i), snap=False)
+            c += 1
+        w.step(("dropall",), snap=False)
+        mon.live = True
+        rs = w.step(("tick", E + 2 * P + 1.0))
+        imgs = fsx.dedup(mon.images)
+        mon.images = []
+        viols = []
+        r = rs[-1]
+        for lab, img in imgs:
+            for v in mon.judge(w, r, lab, img, None):
+                v.history = {"big_sweep": case, "crash_point": lab}
+                viols.append(v.to_json())
+        w.destroy()
+        return viols, len(imgs)
+    except W.HarnessError as e:
+        return {"error": str(e)}
+    except Exception as e:    # noqa
+        import traceback
+        return {"error": "%s\n%s" % (e, traceback.format_exc())}
+
+
+def _init_bs():
+    W.reset_scratch_after_fork()
+
+
 RULE = ("BFS over histories of allocate/claim/release/open/add/close by 3 sides with a touching and a pruning sweep, on "
         "file-backed databases, without and with a usage database; during the LAST event of every history the directory "
         "image before every SQL statement and around every commit is captured (what a kill -9 leaves; a hot journal is "
@@ -221,8 +275,40 @@ def make_spec(tier, name=None):
 
 def run(pid, tier, seed, args):
     from .base_run import run_specs
+    import multiprocessing
     b = 50 if tier == "quick" else 900
     s1, s2 = make_spec(tier, "c10"), make_spec(tier, "c10-usage")
+    cases = big_sweep_cases(tier)
+    viols, n_img = [], 0
+    ctx = multiprocessing.get_context("fork")
+    with ctx.Pool(args.workers if args and args.workers else min(16, os.cpu_count() or 1), initializer=_init_bs) as pool:
+        for res in pool.imap_unordered(run_big_sweep, cases):
+            if isinstance(res, dict):
+                raise W.HarnessError(res["error"])
+            viols.extend(res[0])
+            n_img += res[1]
+    print("C10 big-sweep family: cases=%d crash images judged=%d violations=%d" % (len(cases), n_img, len(viols)))
     return run_specs(pid, tier, seed, args, [("c10", s1, s1.depth, b), ("c10-usage", s2, s2.depth, b)],
-                     level="fault_enumeration", rule=RULE,
+                     level="fault_enumeration", rule=RULE + "; plus the big-sweep family: states with 1-8 nameplates x 1-2 sides "
+                     "and 0/3 standalone mailboxes with messages built through the real API, every statement/commit boundary of "
+                     "the sweeps that expire them is a crash point (never-return continuation)",
+                     extra_cov={"big_sweep_cases": len(cases), "big_sweep_images": n_img}, extra_viols=viols,
+                     extra_samples=[{"big_sweep": cases[-1]}],
                      assumptions=["crash points are SQL-statement and commit boundaries; SQLite's atomic commit is trusted for finer points"])
+
+
+def replay(path):
+    import sys
+    from .. import runner
+    with open(path) as f:
+        rp = json.load(f)
+    h = rp.get("history")
+    if isinstance(h, dict) and "big_sweep" in h:
+        res = run_big_sweep(h["big_sweep"])
+        viols = res[0] if isinstance(res, tuple) else []
+        for v in viols:
+            print("  -> VIOLATED clause=%s at %s detail=%s" % (v["clause"], json.dumps(v["history"]),
+                                                            json.dumps(v["detail"], default=repr)[:1500]))
+        print("replay: %d violation(s)" % len(viols))
+        return 1 if viols else 0
+    return runner.generic_replay(sys.modules[__name__], "C10", path)
